@@ -1509,6 +1509,8 @@ Fixpoint SI (q : bool) (d : nat) (s : ast) (v : Z) {struct d} : Prop :=
       | AFixed l rems inss err => err = false /\ exists vs, v = zsum vs + zsum rems + zsum inss /\ Forall2 (SI q d') l vs
       | AED sk p0 q0 e => exists K U rc ic mcs, EDH K U rc ic mcs /\ v = cc rc ic mcs (length ic) (length rc) /\
                                              FI q d' (SI q d') K U rc ic mcs e
+      | AColl ks ius c err => False
+      | AMSet ix m err => False
       end
   end.
 
@@ -1533,8 +1535,8 @@ Qed.
 Theorem si_step : forall q d s v, SI q d s v -> astep_ok (AM q d) (fun t => SI q d t v) v s.
 Proof.
   intros q. induction d as [|d IH]; intros s v H.
-  - destruct s as [c t| | |]; cbn [SI] in H; try contradiction. subst v. apply si_const_step.
-  - destruct s as [c t|l|l rems inss err|sk p0 q0 e]; cbn [SI] in H.
+  - destruct s as [c t| | | | |]; cbn [SI] in H; try contradiction. subst v. apply si_const_step.
+  - destruct s as [c t|l|l rems inss err|sk p0 q0 e|ks ius c err|ix m err]; cbn [SI] in H; try contradiction.
     + subst v. apply si_const_step.
     + destruct H as (vs & -> & HF).
       eapply astep_ok_mono; [|apply (sum_step q d (SI q d) IH vs l HF)].
@@ -1567,7 +1569,8 @@ Proof. intros q [|d] c t; reflexivity. Qed.
 Lemma si_sub : forall q d s v i x, SI q (S d) s v -> sub_get s i = Some x ->
   exists vx, SI q d x vx /\ forall x', SI q d x' vx -> SI q (S d) (sub_put s i x') v.
 Proof.
-  intros q d s v i x H Hx. destruct s as [c t|l|l rems inss err|sk p0 q0 e]; cbn [SI] in H; cbn [sub_get] in Hx; try discriminate.
+  intros q d s v i x H Hx. destruct s as [c t|l|l rems inss err|sk p0 q0 e|ks ius c err|ix m err]; cbn [SI] in H; cbn [sub_get] in Hx;
+    try discriminate; try contradiction.
   - destruct H as (vs & -> & HF). destruct (Forall2_nth_error _ _ _ _ _ HF Hx) as (vx & Ev & Hv). exists vx. split; [exact Hv|].
     intros x' Hx'. cbn [sub_put SI]. exists vs. split; [reflexivity|]. apply (Forall2_set_nth _ _ _ _ _ _ HF Ev Hx').
   - destruct H as (-> & vs & -> & HF). destruct (Nat.ltb i (length l)) eqn:Li.
@@ -1648,11 +1651,35 @@ Proof.
   - apply Hx. apply Hh. left. reflexivity.
   - apply IH. intros y Hy. apply Hh. right. exact Hy.
 Qed.
-Definition PgoodA (a : tree) : Prop := forall b s, initA a b = Some s -> exists v, GoodV s v.
+(* which documents the closing induction covers (the classes whose invariant is proved) *)
+Definition COV_MSET : bool := false.
+Definition COV_FDICT : bool := false.
+Fixpoint covered (t : tree) : bool :=
+  match t with
+  | Leaf _ => true
+  | Lst _ _ cs => forallb covered cs
+  | Kvp _ k v => covered k && covered v
+  | MSet _ cs => COV_MSET && forallb covered cs
+  | FDict cs => COV_FDICT && forallb covered cs
+  end.
+
+Section OrcA.
+Variable orc : oracle.
+Notation initA := (ApiModel.initA orc).
+
+Definition PgoodU (a : tree) : Prop := forall b s, initA a b = Some s -> exists v, GoodV s v.
+Definition PgoodA (a : tree) : Prop := covered a = true -> PgoodU a.
+
+Lemma covered_forall : forall (P : tree -> Prop) cs, Forall (fun c => covered c = true -> P c) cs -> forallb covered cs = true -> Forall P cs.
+Proof.
+  intros P cs H Hc. induction H as [|c cs Hc0 _ IH]; constructor; cbn [forallb] in Hc; apply andb_true_iff in Hc; destruct Hc as [C1 C2].
+  - apply Hc0. exact C1.
+  - apply IH. exact C2.
+Qed.
 
 Lemma const_tag_of_nonneg : forall a b c t, const_tag_of a b = Some (c, t) -> 0 <= c.
 Proof.
-  intros a b c t H. destruct a as [x|ale alsl cs|ake k v|amk cs|cs]; cbn [const_tag_of] in H; try discriminate.
+  intros a b c t H. destruct a as [x|ale alsl cs|ake k v|amk cs|cs]; cbn [const_tag_of] in H.
   - unfold leaf_script in H. pose proof (replace_cost_pos (Leaf x) b) as Rp.
     destruct (lk x); destruct b as [y| | | |]; try (injection H as <- <-; lia);
       try (destruct (lk y); injection H as <- <-; try lia; apply leaf_match_cost_nonneg);
@@ -1666,6 +1693,12 @@ Proof.
   - destruct b as [y| |ake' k' v'| |]; try discriminate.
     destruct (ake || node_eqb k k'); [discriminate|]. injection H as <- <-.
     pose proof (replace_cost_pos (Kvp ake k v) (Kvp ake' k' v')). lia.
+  - pose proof (replace_cost_pos (MSet amk cs) b).
+    destruct b as [y| | |amk' ds|ds]; try discriminate; try (injection H as <- <-; lia).
+    destruct (_ || _); [injection H as <- <-; lia|discriminate].
+  - pose proof (replace_cost_pos (FDict cs) b).
+    destruct b as [y| | |amk' ds|ds]; try discriminate; try (injection H as <- <-; lia).
+    destruct (_ || _); [injection H as <- <-; lia|discriminate].
 Qed.
 
 Lemma goodv_const : forall c t, 0 <= c -> GoodV (AConst c t) c.
@@ -1785,7 +1818,7 @@ Proof.
   destruct (mget_initA_matrix _ _ _ _ _ Em) as (c0 & d0 & E1 & E2 & E3). exists c0, d0. auto.
 Qed.
 
-Lemma goodv_list_ed : forall ale alsl cs b pen s, Forall PgoodA cs ->
+Lemma goodv_list_ed : forall ale alsl cs b pen s, Forall PgoodU cs ->
   list_dispatch (Lst ale alsl cs) b = LEditDist pen ->
   (let ds := match b with Lst _ _ ds => ds | _ => [] end in
    let M := map (fun c => map (fun d => initA c d) ds) cs in
@@ -1821,7 +1854,7 @@ Proof.
     rewrite (all_some_l_length _ _ H1), map_length, seq_length. reflexivity.
 Qed.
 
-Lemma goodv_list_fixed : forall cs ds s, Forall PgoodA cs ->
+Lemma goodv_list_fixed : forall cs ds s, Forall PgoodU cs ->
   (let M := map (fun c => map (fun d => initA c d) ds) cs in
    let n := length cs in
    let m := length ds in
@@ -1856,16 +1889,19 @@ Qed.
 Theorem initA_good : forall a, PgoodA a.
 Proof.
   apply tree_rect'.
-  - intros x b s H. cbn [initA] in H. destruct (const_tag_of (Leaf x) b) as [[c t]|] eqn:Ec.
+  - intros x _ b s H. cbn [ApiModel.initA] in H. destruct (const_tag_of (Leaf x) b) as [[c t]|] eqn:Ec.
     + injection H as <-. eexists. apply goodv_const. apply (const_tag_of_nonneg _ _ _ _ Ec).
     + destruct b as [y| | | |]; try discriminate. destruct (lk x); try discriminate; destruct (lk y); try discriminate.
       injection H as <-. apply goodv_str.
-  - intros ale alsl cs IH b s H. cbn [initA] in H. destruct (const_tag_of (Lst ale alsl cs) b) as [[c t]|] eqn:Ec.
+  - intros ale alsl cs IH0 Hcov b s H. cbn [covered] in Hcov. pose proof (covered_forall PgoodU cs IH0 Hcov) as IH.
+    cbn [ApiModel.initA] in H. destruct (const_tag_of (Lst ale alsl cs) b) as [[c t]|] eqn:Ec.
     + injection H as <-. eexists. apply goodv_const. apply (const_tag_of_nonneg _ _ _ _ Ec).
     + destruct (list_dispatch (Lst ale alsl cs) b) eqn:Ed; try discriminate.
       * apply (goodv_list_fixed cs (match b with Lst _ _ ds => ds | _ => [] end) s IH H).
       * apply (goodv_list_ed ale alsl cs b penalty s IH Ed H).
-  - intros ake k v IHk IHv b s H. cbn [initA] in H. destruct (const_tag_of (Kvp ake k v) b) as [[c t]|] eqn:Ec.
+  - intros ake k v IHk0 IHv0 Hcov b s H. cbn [covered] in Hcov. apply andb_true_iff in Hcov. destruct Hcov as [Ck Cv].
+    pose proof (IHk0 Ck) as IHk. pose proof (IHv0 Cv) as IHv.
+    cbn [ApiModel.initA] in H. destruct (const_tag_of (Kvp ake k v) b) as [[c t]|] eqn:Ec.
     + injection H as <-. eexists. apply goodv_const. apply (const_tag_of_nonneg _ _ _ _ Ec).
     + destruct b as [y| |ake' k' v'| |]; try discriminate.
       assert (Hk : forall x, (if node_eqb k k' then Some (AConst 0 TMatch) else initA k k') = Some x -> exists w, GoodV x w).
@@ -1876,42 +1912,45 @@ Proof.
       destruct (if node_eqb v v' then _ else _) as [y|]; [|discriminate]. injection H as <-.
       destruct (Hk x eq_refl) as (w1 & G1). destruct (Hv y eq_refl) as (w2 & G2).
       exists (zsum [w1; w2]). apply goodv_sum. constructor; [exact G1|]. constructor; [exact G2|constructor].
-  - intros amk cs IH b s H. cbn [initA const_tag_of] in H. discriminate.
-  - intros cs IH b s H. cbn [initA const_tag_of] in H. discriminate.
+  - intros amk cs IH Hcov. cbn [covered] in Hcov. unfold COV_MSET in Hcov. discriminate.
+  - intros cs IH Hcov. cbn [covered] in Hcov. unfold COV_FDICT in Hcov. discriminate.
 Qed.
 
 (* ================================================================ the property for the modelled fragment
    For every pair of documents whose edit the model covers, every history of calls on the edit returned by a.edits(b)
    and both settings of DEFAULT_PRINTER.quiet: no call raises, every call is answered, and completion yields the same
    final cost v - a value that depends on the pair only. *)
-Theorem C05_model : forall a b s, initA a b = Some s -> exists v, 0 <= v /\
+Theorem C05_model : forall a b s, covered a = true -> initA a b = Some s -> exists v, 0 <= v /\
   forall (quiet : bool) (h : history),
     existsb is_err (snd (run_hist quiet (aheight s) h s)) = false /\
     length (snd (run_hist quiet (aheight s) h s)) = length h /\
     finish_cost quiet (aheight s) (fst (run_hist quiet (aheight s) h s)) = Some v.
 Proof.
-  intros a b s H. destruct (initA_good a b s H) as (v & Hv & Hg). exists v. split; [exact Hv|].
+  intros a b s Hcov H. destruct (initA_good a Hcov b s H) as (v & Hv & Hg). exists v. split; [exact Hv|].
   intros quiet h. destruct (si_history quiet (aheight s) v h s (Hg quiet (aheight s) (le_n _))) as (_ & A & B & C0).
   auto.
 Qed.
 
 (* the status flag is irrelevant: both settings end every history with the same final cost *)
-Corollary C05_quiet : forall a b s, initA a b = Some s -> forall (h1 h2 : history),
+Corollary C05_quiet : forall a b s, covered a = true -> initA a b = Some s -> forall (h1 h2 : history),
   finish_cost true (aheight s) (fst (run_hist true (aheight s) h1 s)) =
   finish_cost false (aheight s) (fst (run_hist false (aheight s) h2 s)).
 Proof.
-  intros a b s H h1 h2. destruct (C05_model a b s H) as (v & _ & Hv).
+  intros a b s Hcov H h1 h2. destruct (C05_model a b s Hcov H) as (v & _ & Hv).
   destruct (Hv true h1) as (_ & _ & ->). destruct (Hv false h2) as (_ & _ & ->). reflexivity.
 Qed.
+
+End OrcA.
+Notation initA0 := (ApiModel.initA []).
 
 (* ================================================================ the hypotheses are satisfiable (non-trivial instances) *)
 Definition lf (k : Z) : tree := Leaf (Build_leaf KInt [48 + k] k 0).
 Definition ex_a : tree := Lst true true [Lst true true [lf 1; lf 2]; Lst true true [lf 3; lf 4]].      (* [[1,2],[3,4]] *)
 Definition ex_b : tree := Lst true true [Lst true true [lf 3; lf 5]; Lst true true [lf 1; lf 2]; lf 7]. (* [[3,5],[1,2],7] *)
-Definition ex_s : ast := match initA ex_a ex_b with Some s => s | None => AConst 0 TOther end.
+Definition ex_s : ast := match initA0 ex_a ex_b with Some s => s | None => AConst 0 TOther end.
 
 (* the pair is in the modelled fragment: a nested EditDistance (an EditDistance whose cells are EditDistances) *)
-Example ex_modelled : initA ex_a ex_b = Some ex_s /\ aheight ex_s = 2%nat /\ tag_of ex_s = TEditDist.
+Example ex_modelled : initA0 ex_a ex_b = Some ex_s /\ aheight ex_s = 2%nat /\ tag_of ex_s = TEditDist.
 Proof. vm_compute. repeat split. Qed.
 
 (* the history that raised TypeError before the repair of D6 (refine twice without reading the bounds), under both
@@ -1936,7 +1975,7 @@ Example ex_instance : exists v, 0 <= v /\ forall quiet (h : history),
   existsb is_err (snd (run_hist quiet (aheight ex_s) h ex_s)) = false /\
   length (snd (run_hist quiet (aheight ex_s) h ex_s)) = length h /\
   finish_cost quiet (aheight ex_s) (fst (run_hist quiet (aheight ex_s) h ex_s)) = Some v.
-Proof. apply (C05_model ex_a ex_b ex_s). apply ex_modelled. Qed.
+Proof. apply (C05_model [] ex_a ex_b ex_s); [reflexivity|apply ex_modelled]. Qed.
 
 (* a sub-edit addressed through a listing (calls on sub-edits are part of the model and of the correspondence run) *)
 Example ex_sub_edit :
@@ -1967,8 +2006,12 @@ Lemma script_dispatch : forall ale alsl cs b,
     (all_leaves (match b with Lst _ _ ds => ds | _ => [] end)) = list_dispatch (Lst ale alsl cs) b.
 Proof. intros ale alsl cs b. destruct b; reflexivity. Qed.
 
-Definition PcostA (a : tree) : Prop :=
+Section OrcB.
+Variable orc : oracle.
+Notation initA := (ApiModel.initA orc).
+Definition PcostU (a : tree) : Prop :=
   forall b s O pa pb e, initA a b = Some s -> script O pa pb a b = OK e -> GoodV s (cost e).
+Definition PcostA (a : tree) : Prop := covered a = true -> PcostU a.
 
 Lemma cost_const_tag : forall a b c t O pa pb e, const_tag_of a b = Some (c, t) -> script O pa pb a b = OK e -> cost e = c.
 Proof.
@@ -1978,6 +2021,10 @@ Proof.
     destruct (list_dispatch (Lst ale alsl cs) b); try discriminate; injection H as <- _; injection Hs as <-; reflexivity.
   - destruct b as [y| |ake' k' v'| |]; try discriminate. cbn [script] in Hs.
     destruct (ake || node_eqb k k'); [discriminate|]. injection H as <- _. injection Hs as <-. reflexivity.
+  - cbn [script] in Hs. destruct b as [y| | |amk' ds|ds]; try discriminate; try (injection H as <- _; injection Hs as <-; reflexivity).
+    destruct (_ || _); [|discriminate]. injection H as <- _. injection Hs as <-. reflexivity.
+  - cbn [script] in Hs. destruct b as [y| | |amk' ds|ds]; try discriminate; try (injection H as <- _; injection Hs as <-; reflexivity).
+    destruct (_ || _); [|discriminate]. injection H as <- _. injection Hs as <-. reflexivity.
 Qed.
 
 Lemma cost_str : forall u t, exists mcs,
@@ -1996,7 +2043,7 @@ Proof.
     induction (middle p q t) as [|d l IH]; constructor; [apply Hrow|exact IH].
 Qed.
 
-Lemma cost_list_fixed : forall O pa pb cs ds s e, Forall PcostA cs ->
+Lemma cost_list_fixed : forall O pa pb cs ds s e, Forall PcostU cs ->
   (let M := map (fun c => map (fun d => initA c d) ds) cs in
    let n := length cs in
    let m := length ds in
@@ -2025,7 +2072,7 @@ Proof.
     - intros i x y Hx Hy.
       pose proof (all_some_l_nth _ _ _ _ El Hx) as H1. apply nth_error_map_seq in H1. destruct H1 as [Li H1].
       destruct (mget _ i i) as [[s'|]|] eqn:Em; try discriminate. injection H1 as Hxs. subst s'.
-      destruct (mget_initA_matrix _ _ _ _ _ Em) as (c0 & d0 & E1 & E2 & E3).
+      destruct (mget_initA_matrix orc _ _ _ _ _ Em) as (c0 & d0 & E1 & E2 & E3).
       rewrite nth_error_map in Hy. destruct (nth_error ps i) as [sb|] eqn:Eps; [|discriminate]. injection Hy as <-.
       apply all_some_spec in Ep.
       assert (Hps : nth_error (map (fun i => match mget (sub_matrix O pa pb cs ds) i i with
@@ -2050,7 +2097,7 @@ Proof.
          rewrite ?remove_cost_eq, ?insert_cost_eq; pose proof (size_nonneg (nth i cs dummy)); pose proof (size_nonneg (nth i ds dummy)); lia).
 Qed.
 
-Lemma cost_list_ed : forall O pa pb ale alsl cs b pen s e, Forall PcostA cs ->
+Lemma cost_list_ed : forall O pa pb ale alsl cs b pen s e, Forall PcostU cs ->
   list_dispatch (Lst ale alsl cs) b = LEditDist pen ->
   (let ds := match b with Lst _ _ ds => ds | _ => [] end in
    let M := map (fun c => map (fun d => initA c d) ds) cs in
@@ -2089,7 +2136,7 @@ Proof.
     { rewrite Forall_forall in Dr. rewrite (Dr vrow (nth_error_In _ _ Ev)), map_length. reflexivity. }
     apply Forall2_of_nth; [lia|]. intros c x v Hx Hv.
     assert (Hx' : nth_error (nth r ks []) c = Some x) by (rewrite (nth_nth_error ks r row [] Er); exact Hx).
-    destruct (ed_kids_entryA cs ds p _ _ ks r c x Ek Hx') as (_ & Lc & c0 & d0 & E1 & E2 & E3).
+    destruct (ed_kids_entryA orc cs ds p _ _ ks r c x Ek Hx') as (_ & Lc & c0 & d0 & E1 & E2 & E3).
     destruct (ed_costs_nth _ p _ _ mcs r c Ec Lr Lc) as (res & Em & Ecost).
     destruct (mget_sub_matrix _ _ _ _ _ _ _ _ Em) as (c1 & d1 & F1 & F2 & F3).
     rewrite E1 in F1. injection F1 as <-. rewrite E2 in F2. injection F2 as <-.
@@ -2109,7 +2156,7 @@ Qed.
 Theorem initA_cost : forall a, PcostA a.
 Proof.
   apply tree_rect'.
-  - intros x b s O pa pb e H Hs. cbn [initA] in H. destruct (const_tag_of (Leaf x) b) as [[c t]|] eqn:Ec.
+  - intros x _ b s O pa pb e H Hs. cbn [ApiModel.initA] in H. destruct (const_tag_of (Leaf x) b) as [[c t]|] eqn:Ec.
     + injection H as <-. rewrite (cost_const_tag _ _ _ _ _ _ _ _ Ec Hs). apply goodv_const. apply (const_tag_of_nonneg _ _ _ _ Ec).
     + destruct b as [y| | | |]; try discriminate. destruct (lk x) eqn:Kx; try discriminate; destruct (lk y) eqn:Ky; try discriminate.
       injection H as <-. cbn [script] in Hs. cbn [const_tag_of] in Ec. unfold leaf_script in Hs, Ec. rewrite Kx, Ky in Hs, Ec.
@@ -2125,13 +2172,15 @@ Proof.
       * rewrite middle_map, !map_length. reflexivity.
       * apply Forall_forall. intros row Hrow. apply in_map_iff in Hrow. destruct Hrow as (d & <- & _).
         rewrite middle_map, !map_length. reflexivity.
-  - intros ale alsl cs IH b s O pa pb e H Hs. cbn [initA] in H. destruct (const_tag_of (Lst ale alsl cs) b) as [[c t]|] eqn:Ec.
+  - intros ale alsl cs IH0 Hcov b s O pa pb e H Hs. cbn [covered] in Hcov. pose proof (covered_forall PcostU cs IH0 Hcov) as IH.
+    cbn [ApiModel.initA] in H. destruct (const_tag_of (Lst ale alsl cs) b) as [[c t]|] eqn:Ec.
     + injection H as <-. rewrite (cost_const_tag _ _ _ _ _ _ _ _ Ec Hs). apply goodv_const. apply (const_tag_of_nonneg _ _ _ _ Ec).
     + cbn [script] in Hs. rewrite script_dispatch in Hs.
       destruct (list_dispatch (Lst ale alsl cs) b) eqn:Ed; try discriminate.
       * apply (cost_list_fixed O pa pb cs (match b with Lst _ _ ds => ds | _ => [] end) s e IH H Hs).
       * apply (cost_list_ed O pa pb ale alsl cs b penalty s e IH Ed H Hs).
-  - intros ake k v IHk IHv b s O pa pb e H Hs. cbn [initA] in H. destruct (const_tag_of (Kvp ake k v) b) as [[c t]|] eqn:Ec.
+  - intros ake k v IHk0 IHv0 Hcov b s O pa pb e H Hs. cbn [covered] in Hcov. apply andb_true_iff in Hcov. destruct Hcov as [Ck Cv].
+    pose proof (IHk0 Ck) as IHk. pose proof (IHv0 Cv) as IHv. cbn [ApiModel.initA] in H. destruct (const_tag_of (Kvp ake k v) b) as [[c t]|] eqn:Ec.
     + injection H as <-. rewrite (cost_const_tag _ _ _ _ _ _ _ _ Ec Hs). apply goodv_const. apply (const_tag_of_nonneg _ _ _ _ Ec).
     + destruct b as [y| |ake' k' v'| |]; try discriminate. cbn [script] in Hs. cbn [const_tag_of] in Ec.
       destruct (ake || node_eqb k k'); [|discriminate].
@@ -2152,20 +2201,22 @@ Proof.
       injection Hs as <-. cbn [cost].
       replace (cost e1 + cost e2) with (zsum [cost e1; cost e2]) by (cbn; lia).
       apply goodv_sum. constructor; [apply (Hk x e1 eq_refl eq_refl)|]. constructor; [apply (Hv y e2 eq_refl eq_refl)|constructor].
-  - intros amk cs IH b s O pa pb e H. cbn [initA const_tag_of] in H. discriminate.
-  - intros cs IH b s O pa pb e H. cbn [initA const_tag_of] in H. discriminate.
+  - intros amk cs IH Hcov. cbn [covered] in Hcov. unfold COV_MSET in Hcov. discriminate.
+  - intros cs IH Hcov. cbn [covered] in Hcov. unfold COV_FDICT in Hcov. discriminate.
 Qed.
 
 (* the property with the big-step final cost: every history, both flag settings *)
-Theorem C05_model_cost : forall a b s O pa pb e, initA a b = Some s -> script O pa pb a b = OK e ->
+Theorem C05_model_cost : forall a b s O pa pb e, covered a = true -> initA a b = Some s -> script O pa pb a b = OK e ->
   forall (quiet : bool) (h : history),
     existsb is_err (snd (run_hist quiet (aheight s) h s)) = false /\
     length (snd (run_hist quiet (aheight s) h s)) = length h /\
     finish_cost quiet (aheight s) (fst (run_hist quiet (aheight s) h s)) = Some (cost e).
 Proof.
-  intros a b s O pa pb e H Hs quiet h. destruct (initA_cost a b s O pa pb e H Hs) as (_ & Hg).
+  intros a b s O pa pb e Hcov H Hs quiet h. destruct (initA_cost a Hcov b s O pa pb e H Hs) as (_ & Hg).
   destruct (si_history quiet (aheight s) (cost e) h s (Hg quiet (aheight s) (le_n _))) as (_ & A & B & C0). auto.
 Qed.
+
+End OrcB.
 
 Example ex_script_cost : exists e, script (Build_oracle [] []) [] [] ex_a ex_b = OK e /\ cost e = 10.
 Proof. eexists. split; [vm_compute; reflexivity|reflexivity]. Qed.
